@@ -10,15 +10,15 @@ TECH = {
  "C02": "static analysis: parameter-dependence taint, linearity type system and accumulate-on-scatter rule over every backward closure; adjointness of the convolution's scatter / gather kernels as index polynomials (symbolic div / mod simplification); symbolic differentiation of every element-wise forward map compared with its backward slot in an exact rational-function algebra (sibling cross-check, nothing executed); symbolic shape type system for the matrix product's deltas and for single-operand sliced_op calls under all transposition flags; axis (units-of-measure) type system for the convolution index arithmetic and sibling agreement of the window-count formula; reduce-last rule (THIR via rustc_private driver)",
  "C03": "static analysis: shape typestate over the engine's delta/gradient sinks (THIR dataflow)",
  "C04": "static analysis: structural reading of the broadcast-shape function (pairing direction; refusal condition and stored value decided on the finite grid of orderings), forward maps of the element-wise operators in an exact algebra, alignment-consistency (contradiction) rule over every place where sliced_op matches operand dimensions against the target; provenance of the dimensions of every value the combinator returns",
- "C05": "static analysis: load / store indices of the matrix-product kernel translated from THIR into integer polynomials (lets resolved, flag conditionals folded per assignment) and compared with the row-major positions of op(A)[r,k], op(B)[k,j], C[r,j]; symbolic evaluation of the dimension reads under each transposition assignment; the compatibility assertion evaluated for every pair of ranks at which both inner dimensions exist (reached, not escaped); provenance of the broadcast target dimensions for every pair of ranks; alignment consistency of the slice walk the batched product goes through",
+ "C05": "static analysis: load / store indices of the matrix-product kernel translated from THIR into integer polynomials (lets resolved, flag conditionals folded per assignment) and compared with the row-major positions of op(A)[r,k], op(B)[k,j], C[r,j]; symbolic evaluation of the dimension reads under each transposition assignment; the compatibility assertion evaluated for every pair of ranks at which both inner dimensions exist (reached, not escaped); provenance of the broadcast target dimensions for every pair of ranks; alignment consistency of the slice walk the batched product goes through; iterator-length model of the pipeline that copies the additive term; the multi-index fold",
  "C06": "static analysis: load / store indices of im2col and of the output transposition as integer polynomials (running counters as affine functions of the loop indices: rank of the common loops times the update's inner iterations) compared with the documented sliding-window positions; axis (units-of-measure) typing and window-count formula agreement",
  "C07": "static analysis: forward maps of the point-wise functions, softmax, sum_all and reshape translated from THIR into an exact rational-function algebra and compared with the documented definitions; constructor funnel for reshape's refusal",
- "C08": "static analysis: type walk for interior mutability, unsafe scan, MIR place-context scan for writes/mutable borrows, public-API signature scan, destructor scan",
- "C09": "static analysis: exhaustive Boolean evaluation of every constructor's attach guard, slot gating, flag-writer inventory and stop/restore pairing",
+ "C08": "static analysis: type walk for interior mutability, unsafe scan, MIR place-context scan for writes/mutable borrows, public-API signature scan, destructor scan, inventory of stores through `&mut Array` (only Optimizer::update re-seats a handle)",
+ "C09": "static analysis: exhaustive Boolean evaluation of every constructor's attach guard, slot gating, flag-writer inventory and stop/restore pairing, consumer-count descent only through tracked children, no operation of several operands returns one of them",
  "C10": "static analysis: engine-state layering (who touches counters/deltas/gradients), take-only delta reads, additive accumulate arms",
  "C11": "static analysis: slot arity and gating of every derivative closure including its early returns; single invocation site of the derivative closure and control dependence of counting/recursion on the shared consumer counter",
  "C12": "static analysis: field-by-field provenance of Clone, MIR scan for re-seated shared slots, who-may-write rule for the per-node slots shared by clones, children-by-clone at every attachment site, destructor scan, equality field set",
- "C13": "static analysis: the element-wise store of update read in an exact algebra (old - rate x gradient) and provenance of the rate field in every constructor; dataflow of the value stored over each parameter in Optimizer::update (fresh constructor, same dimensions, tracked) and order/subset agreement of its producer and consumer traversals",
+ "C13": "static analysis: the element-wise store of update read in an exact algebra (old - rate x gradient) and provenance of the rate field in every constructor; dataflow of the value stored over each parameter in Optimizer::update (fresh constructor, same dimensions, tracked) and order/subset agreement of its producer and consumer traversals; no call in update that needs unique ownership of a buffer",
  "C14": "static analysis: provenance of the parameters installed by update, optimizer state inventory (interior mutability), retained-slot / static inventory of Model, layers and optimizers, consumer-count protocol, slot gating of every derivative closure (a tracked operand always receives its slot) and engine-state layering (no counter residue between passes)",
  "C15": "static analysis: cost closures, Layer::forward implementations and Model::forward/backward translated from THIR into an exact algebra with uninterpreted function symbols and compared with the documented formulas; structural composition-order check of the layer loop; axis typing of the (rows, cols) pairs stored by layer constructors",
  "C16": "static analysis: constructor funnel + dominating assertions, no later write (MIR), equality reads exactly dimensions and values and compares the elements as numbers (no conversion on the way); the multi-index fold evaluated on symbolic lists (ranks 1..4, all unit-dimension patterns) and compared with the row-major polynomial",
